@@ -503,7 +503,11 @@ func c16Check(offerText, answerText string, info func(mid string) c16SectionInfo
 				where := fmt.Sprintf("section %d (m=%s, mid %q): answer lists format %s (%s); offer section lists [%s]",
 					i, o.Kind, om, pt, got, strings.Join(o.Formats, " "))
 				switch {
+				case a.Rejected() && !offered && !got.Known && pt == "0" && len(a.Formats) == 1:
+					// cause: hard-coded placeholder format list "0" of the no-common-codec rejection path
+					fs = append(fs, c16Finding{"rejected-section-lists-placeholder-format", where + " — the section is rejected (port 0)"})
 				case a.Rejected() && !offered:
+					// cause: a port-0 section (offered rejected / stopped transceiver) still lists the local kind-wide codecs
 					fs = append(fs, c16Finding{"rejected-section-lists-unoffered-pt", where + " — the section is rejected (port 0)"})
 				case a.Rejected():
 					// a rejected section that echoes an offered format is fine
